@@ -1,5 +1,6 @@
 //! geharness: runs the real glass-easel compilers in-process behind a line protocol.
 //! `geharness run` reads requests (`op TAB field…`) on stdin and answers one line each.
+mod astdump;
 mod codec;
 mod cssops;
 mod dump;
